@@ -56,10 +56,25 @@ META = {
 def run(ctx):
     obs = ctx.obs
     obs.extra['meta'] = META
-    for case, rng in ctx.cases(ctx.n(220, 15000)):
+    from ..model.grids import set_wide_longitudes
+    set_wide_longitudes(True)      # also datasets in the 0..360 convention / straddling 180 degrees
+    total = ctx.n(220, 15000)
+    for case, rng in ctx.cases(total):
         conv = CONVENTIONS[case % len(CONVENTIONS)]
         spec = {'case': case, 'convention': conv}
         ctx.run_case(spec, one_dataset, obs, rng, conv, spec)
+    if ctx.thorough:
+        # scale: more than 100 000 cells, so that the recorded indexes need six digits (dBase field widths, int casts)
+        from ..rng import gen
+        for extra in range(2):
+            case = total + extra
+            if ctx.only_case is not None and ctx.only_case != case:
+                continue
+            if ctx.only_case is None and case % ctx.nshards != ctx.shard:
+                continue
+            spec = {'case': case, 'convention': 'cf1d', 'large': True}
+            ctx.run_case(spec, one_dataset, obs, gen(ctx.seed, ctx.prop, case, 'large'), 'cf1d', spec,
+                         dict(ny=3, nx=33400 + 7 * extra, bounds='var' if extra == 0 else 'none'))
 
 
 # ---------------------------------------------------------------------------
@@ -117,9 +132,11 @@ def compare_ring(got_closed, want_ring, tol):
 # one dataset, four exports
 # ---------------------------------------------------------------------------
 
-def one_dataset(obs, rng, conv, spec):
+def one_dataset(obs, rng, conv, spec, force_kw=None):
     from emsarray.operations import geometry
-    kw = {}
+    kw = dict(force_kw or {})
+    if force_kw:
+        obs.cls('dataset:more-than-100000-cells')
     if conv in ('cf2d', 'shoc_simple', 'shoc_standard') and chance(rng, 0.6):
         kw['holes'] = pick(rng, ['scatter', 'line', 'block', 'mixed'])
     if conv in ('cf2d', 'shoc_simple') and chance(rng, 0.3):
